@@ -307,6 +307,13 @@ var steps = []step{
 		res := db.Create(&[]Solo{{ID: b + 1, V: "a", N: 1, Secret: EncStr(fmt.Sprint("s", b+1))}, {ID: b + 2, V: "b", N: 2, Secret: EncStr(fmt.Sprint("s", b+2))}})
 		return fmt.Sprintf("%s rows=%d", fmtErr(res.Error), res.RowsAffected)
 	}},
+	{"QueryMissingTable", func(db *gorm.DB, b int64) string {
+		// the same failing text from every goroutine: in prepared-statement mode they meet in one
+		// preparation that fails, and every one of them must get the error
+		var v string
+		err := db.Raw("SELECT v FROM no_such_table WHERE id = ?", 1).Scan(&v).Error
+		return fmtErr(err)
+	}},
 	{"CreateSolo2", func(db *gorm.DB, b int64) string {
 		res := db.Create(&Solo2{ID: b + 1, V: "z"})
 		return fmt.Sprintf("%s rows=%d", fmtErr(res.Error), res.RowsAffected)
@@ -546,7 +553,37 @@ func run(c *core.Ctx) {
 	for g := range progs {
 		progs[g] = genProgram(r, firsts[(g+r.Intn(3))%len(firsts)])
 	}
-	desc := fmt.Sprintf("G=%d prepareStmt=%v warm=%v yieldAtSchemaStored=%v", G, prep, warm, yield)
+	if c.Case%5 == 1 {
+		// every goroutine runs into the same failing statement at about the same time
+		for i, st := range steps {
+			if st.name == "QueryMissingTable" {
+				for g := range progs {
+					progs[g] = append([]int{progs[g][0], i}, progs[g][1:]...)
+					if r.Bool() {
+						progs[g] = append([]int{i}, progs[g]...)
+					}
+				}
+			}
+		}
+	}
+	hot := c.Case%5 == 3
+	if hot {
+		// contention on one model: every goroutine creates its own rows of the model whose field type is
+		// its own serializer and then reads them again and again (per-field scan value pools, decoding
+		// into pooled instances), first use included
+		idx := map[string]int{}
+		for i, st := range steps {
+			idx[st.name] = i
+		}
+		for g := range progs {
+			p := []int{idx["CreateSolo"]}
+			for n := r.Range(4, 8); n > 0; n-- {
+				p = append(p, idx[core.Pick(r, []string{"FindSolos", "FirstSolo", "FindSolos"})])
+			}
+			progs[g] = p
+		}
+	}
+	desc := fmt.Sprintf("G=%d prepareStmt=%v warm=%v yieldAtSchemaStored=%v oneModelContention=%v", G, prep, warm, yield, hot)
 	c.Logf("RUN %s", desc)
 
 	// serial reference on its own database and handle
@@ -610,7 +647,41 @@ func run(c *core.Ctx) {
 		}(g)
 	}
 	close(start)
-	wg.Wait()
+	// bounded progress: a generous limit, then the goroutine dump decides
+	done := make(chan struct{})
+	go func() { wg.Wait(); close(done) }()
+	select {
+	case <-done:
+	case <-time.After(90 * time.Second):
+		verifhook.Set(nil)
+		buf := make([]byte, 1<<20)
+		dump := string(buf[:runtime.Stack(buf, true)])
+		var blocked []string
+		busy := false
+		for _, gr := range strings.Split(dump, "\n\n") {
+			if !strings.Contains(gr, "engine/c07.runProgram") {
+				continue
+			}
+			head := strings.SplitN(gr, "\n", 2)[0]
+			if strings.Contains(head, "chan receive") || strings.Contains(head, "semacquire") || strings.Contains(head, "sync.") || strings.Contains(head, "select") {
+				var fr []string
+				for _, l := range strings.Split(gr, "\n") {
+					if strings.HasPrefix(l, "gorm.io/gorm") && len(fr) < 5 {
+						fr = append(fr, strings.SplitN(l, "(0x", 2)[0])
+					}
+				}
+				blocked = append(blocked, head+" "+strings.Join(fr, " < "))
+			} else {
+				busy = true
+			}
+		}
+		if busy || len(blocked) == 0 {
+			c.Inconclusive("goroutines still running after 90 s")
+		} else {
+			c.Violation("no-progress", map[string]interface{}{"run": desc, "problems": []string{fmt.Sprintf("%d goroutines never returned: every one of them is blocked, none is running", len(blocked))}, "blocked": blocked})
+		}
+		return
+	}
 	verifhook.Set(nil)
 	close(panics)
 	var problems []string
@@ -776,9 +847,10 @@ func postChild(dir string, batch int, res *core.Result) {
 var Engine = &core.Engine{
 	ID:    "C07",
 	Level: "exploration",
-	Rule: "each case: G in {2,4,8,16(,32)} goroutines released from a barrier on one *gorm.DB whose schema cache is cold (fresh Open on a pre-created SQLite file; every 7th case warm), each running a seeded program of 4..9 calls out of 36 (chains derived from two shared reusable handles that carry three joins / three orders, reads of a model whose field type is its own serializer, graph creates through every relation kind of a mutually related model cluster plus unrelated models, First/Find/Preload/Joins, updates, deletes incl. soft delete and Select(assoc), nested and failing transactions, association mode, FirstOrCreate, Scan, FindInBatches) on its own key range; first statements touch different models of the cluster; PrepareStmt on/off; a hook yields right after a half-built schema became visible (2 of 3 cases); " +
+	Rule: "each case: G in {2,4,8,16(,32)} goroutines released from a barrier on one *gorm.DB whose schema cache is cold (fresh Open on a pre-created SQLite file; every 7th case warm), each running a seeded program of 4..9 calls out of 37 (one of them a statement that fails for every goroutine alike; every 5th case all goroutines start with it) (chains derived from two shared reusable handles that carry three joins / three orders, reads of a model whose field type is its own serializer, graph creates through every relation kind of a mutually related model cluster plus unrelated models, First/Find/Preload/Joins, updates, deletes incl. soft delete and Select(assoc), nested and failing transactions, association mode, FirstOrCreate, Scan, FindInBatches) on its own key range; first statements touch different models of the cluster (every 5th case instead: all goroutines create and repeatedly read rows of the self-serializing model); PrepareStmt on/off; a hook yields right after a half-built schema became visible (2 of 3 cases); " +
 		"monitors: race detector (log parsed), per-call and final-state equality with the serial run of the same programs, porcupine-checked register histories on shared rows (every 2nd case); distinct = (G, PrepareStmt, warm, multiset of first statements, schemas parsed during the run); every run is non-trivial (at least 2 goroutines share the handle)",
 	Assumptions: []string{
+		"goroutines that have not returned after 90 s are a violation only if the goroutine dump shows every one of them blocked on a channel / lock inside gorm and none running; otherwise the case is inconclusive",
 		"interleavings are sampled (natural scheduling + yields at schema.stored), not enumerated: held on the executions observed",
 		"explicit primary keys per goroutine make results independent of the interleaving; SQLite in WAL mode with busy timeout and immediate transactions serialises writers without spurious errors",
 		"race reports whose stacks contain no gorm frame on either side are signed '(no gorm frame)' and still reported",
